@@ -1,4 +1,5 @@
 import EmmyVerif.Lemmas.Printer
+import EmmyVerif.Lemmas.PrinterAtoms
 /-!
 # C05 — Formatting never changes or loses code  (*partial*)
 
@@ -30,14 +31,34 @@ output, its non-whitespace bytes are exactly the non-whitespace bytes of the IR'
 document order — the printer can neither drop nor reorder nor invent text; all it adds or removes
 is spaces, tabs and line breaks. Covers groups, indents, fills and align groups in both modes.
 
-Full statement (not proved): the same for all IRs with "the leaves selected by the break decisions"
-(one alternative of each `IfBreak`, line suffixes moved to the end of their line). `IfBreak` picks
-one of two sub-documents and a `LineSuffix` is deliberately reordered, so the leaves are not a fixed
-list there; moreover a `LineSuffix` nested in a line suffix that is flushed by `print`'s final flush
-is dropped by the code (`print` flushes once) — the correspondence run exercises these shapes. -/
+The full statement for all IRs is `C05_print_atoms` below; this is its closed form for IRs without
+`IfBreak` and `LineSuffix`, where the emitted bytes are a fixed list. (A `LineSuffix` nested in a
+line suffix that is flushed by `print`'s final flush is dropped by the code — `print` flushes once —
+and `Top` says so: what is still pending after the final flush is not emitted.) -/
 theorem C05_print_atoms_partial (cfg : Cfg) (hc : cfg.Blank) (fuel : Nat) (ds : List Doc) (out : List Nat)
     (hp : plainL ds = true) (h : print cfg fuel ds = some out) : nb out = nb (leavesL ds) :=
   print_spec cfg hc fuel ds out hp h
+
+/-- **C05 print_atoms (full strength).** For every configuration whose indent and newline strings are
+whitespace, every fuel and EVERY IR: if the printer produces an output, its non-whitespace bytes are
+the bytes emitted by a `Top` derivation (`Lemmas/PrinterAtoms.lean`): the text leaves in document
+order, where an `IfBreak` contributes the atoms of the branch selected by the mode its group
+recorded (or the current mode), a `LineSuffix` contributes nothing where it stands and its atoms are
+emitted at the next line break or at the final flush, pending suffixes in the order they were pushed.
+The relation leaves open only what `fits` decides: the mode of each group and fill part. -/
+theorem C05_print_atoms (cfg : Cfg) (hc : cfg.Blank) (fuel : Nat) (ds : List Doc) (out : List Nat)
+    (h : print cfg fuel ds = some out) : ∃ e, Top ds e ∧ nb out = e :=
+  print_atoms cfg hc fuel ds out h
+
+/-- **the final flush is needed** (what a printer without it would lose): a trailing comment — a
+`LineSuffix` holding a text — at the very end of the IR, with no line break after it, is part of
+every output, as its last non-whitespace bytes. -/
+theorem C05_trailing_suffix_is_printed_last (cfg : Cfg) (hc : cfg.Blank) (fuel : Nat) (ds : List Doc)
+    (s out : List Nat) (h : print cfg fuel (ds ++ [.lineSuffix [.text s]]) = some out) :
+    ∃ e0, nb out = e0 ++ nb s := by
+  obtain ⟨e, ht, he⟩ := print_atoms cfg hc fuel _ out h
+  obtain ⟨e0, rfl⟩ := top_trailing_line_suffix ds s e ht
+  exact ⟨e0, he⟩
 
 /-- the printer never emits a byte for an IR without text leaves: whitespace only -/
 theorem C05_no_text_no_output (cfg : Cfg) (hc : cfg.Blank) (fuel : Nat) (ds : List Doc) (out : List Nat)
@@ -80,6 +101,7 @@ example : print cfgDefault 50 sampleIR
     = some [97, 10, 98, 10, 32, 32, 32, 32, 99, 100, 32, 101, 102, 32, 103, 32, 104, 10, 105] := by
   decide +kernel
 example : flatSimpleL [.text [97, 98], .softLine, .indent [.ifBreak .hardLine (.text [99]) none]] = true := by decide
+example : print cfgDefault 20 [.text [97], .lineSuffix [.text [45, 45, 99]]] = some [97, 45, 45, 99] := by decide +kernel
 example : leavesL sampleIR = [97, 98, 99, 100, 101, 102, 103, 104, 105] := by decide
 
 end Printer
